@@ -308,6 +308,20 @@ class PopulationBasedTraining(FIFOScheduler):
         else:
             assert self.time_keeper is not None  # Sanity check
             trial_id_to_continue, config = self._trial_decisions_stack.pop()
+            if self._trial_state[trial_id_to_continue].stopped:
+                # The trial to clone from has itself been stopped since the
+                # decision was taken (a later result in the same batch made it
+                # reach ``max_t`` or fall into the lower quantile). Its
+                # checkpoint may have been removed already, so we draw another
+                # trial from the current upper quantile, or start from scratch
+                # if there is none
+                _, upper_quantile = self._quantiles()
+                if len(upper_quantile) == 0:
+                    return super()._suggest(trial_id)
+                trial_id_to_continue = int(self._random_state.choice(upper_quantile))
+                config = self._explore(
+                    self._trial_state[trial_id_to_continue].trial.config
+                )
             config["elapsed_time"] = self._elapsed_time()
             config = cast_config_values(
                 config=config, config_space=self.searcher.config_space
